@@ -126,6 +126,10 @@ def _body_ok(h: _Helper) -> Optional[str]:
     a = fn.args
     if a.vararg:
         return "varargs"
+    # a default that is an object built once (a container, a call) is shared by all calls: substituting the body would build it per call
+    for d in list(a.defaults) + [x for x in a.kw_defaults if x is not None]:
+        if not (isinstance(d, (ast.Constant, ast.Name, ast.Attribute)) or (isinstance(d, ast.Tuple) and not d.elts) or (isinstance(d, ast.UnaryOp) and isinstance(d.operand, ast.Constant))):
+            return "default argument evaluated once"
     for n in ast.walk(fn):
         if n is fn:
             continue
